@@ -385,6 +385,29 @@ static void shrinkPlan(Plan &P, const std::string &cls, int budget)
         IsoResult R; evalIsolated(Q, -1, R); budget--;
         return sameFailureIso(R, cls);
     };
+    // 1. bind every operand choice to the edge / forest it resolved to, so
+    //    that deleting a step does not re-route the steps after it
+    {
+        char rp[512];
+        snprintf(rp, sizeof rp, "%s/.resolve.%d.plan", g_scratch.c_str(), int(getpid()));
+        setenv("SIM_RESOLVE_OUT", rp, 1);
+        IsoResult R0; evalIsolated(P, -1, R0); budget--;
+        unsetenv("SIM_RESOLVE_OUT");
+        Plan Q;
+        if (Q.read(rp) && !Q.steps.empty()) {
+            Q.prop = P.prop; Q.seed = P.seed;
+            if (still(Q)) {
+                P = Q;
+                // 2. nothing after the failing step matters
+                if (!R0.crashed && R0.step >= 0 && size_t(R0.step) + 1 < P.steps.size()) {
+                    Plan T = P;
+                    T.steps.resize(size_t(R0.step) + 1);
+                    if (still(T)) P = T;
+                }
+            }
+        }
+        unlink(rp);
+    }
     size_t chunk = P.steps.size() / 2;
     while (chunk >= 1 && budget > 0) {
         bool any = false;
@@ -446,6 +469,7 @@ static bool argflag(int argc, char** argv, const char* key)
 int main(int argc, char** argv)
 {
     if (getenv("SIM_RUN_TIMEOUT")) g_step_timeout = atoi(getenv("SIM_RUN_TIMEOUT"));
+    if (getenv("SIM_SHRINK_SECS")) g_shrink_secs = atof(getenv("SIM_SHRINK_SECS"));
     if (argc < 2) { fprintf(stderr, "usage: sim.bin batch|replay|shrink|mm ...\n"); return 2; }
     setvbuf(stdout, nullptr, _IOLBF, 0);
     const std::string cmd = argv[1];
